@@ -334,3 +334,145 @@ Definition f6_a : list kv := [KStr [120]%N; KStr [121; 31; 115; 58; 122]%N].    
 Definition f6_b : list kv := [KStr [120; 31; 115; 58; 121]%N; KStr [122]%N].       (* ("x\x1fs:y", "z") *)
 Lemma asis_collision : encodeKey_asis f6_a = encodeKey_asis f6_b /\ tuple_eqb f6_a f6_b = false.
 Proof. split; reflexivity. Qed.
+
+(* ------------------------------------------------------------------ the JOIN clause as written *)
+(* a field qualified by the table's alias reads the bare column; an un-aliased table is addressed by its
+   own name; likewise the stream alias; a bare name is itself *)
+Lemma strip_alias_table : forall sa ta f q, f_qual f = Some q -> bytes_eqb q ta = true ->
+  strip_alias sa ta f = f_name f.
+Proof. intros sa ta f q Hq E. unfold strip_alias. rewrite Hq, E, Bool.orb_true_r. reflexivity. Qed.
+Lemma strip_alias_unaliased : forall sa j f, jt_alias j = None -> f_qual f = Some (jt_table j) ->
+  strip_alias sa (eff_alias j) f = f_name f.
+Proof.
+  intros sa j f Ha Hq. apply (strip_alias_table sa _ f (jt_table j) Hq).
+  unfold eff_alias. rewrite Ha. apply bytes_eqb_refl.
+Qed.
+Lemma strip_alias_aliased : forall sa j a f, jt_alias j = Some a -> f_qual f = Some a ->
+  strip_alias sa (eff_alias j) f = f_name f.
+Proof.
+  intros sa j a f Ha Hq. apply (strip_alias_table sa _ f a Hq).
+  unfold eff_alias. rewrite Ha. apply bytes_eqb_refl.
+Qed.
+Lemma strip_alias_stream : forall s ta f, f_qual f = Some s -> strip_alias (Some s) ta f = f_name f.
+Proof. intros s ta f Hq. unfold strip_alias. rewrite Hq. simpl. rewrite bytes_eqb_refl. reflexivity. Qed.
+Lemma strip_alias_bare : forall sa ta f, f_qual f = None -> strip_alias sa ta f = f_name f.
+Proof. intros sa ta f Hq. unfold strip_alias. rewrite Hq. reflexivity. Qed.
+
+(* the key RegisterTable derives for "JOIN t ON k = t.a" (no alias) and for "JOIN t m ON k = m.a" is [a] *)
+Lemma derived_key_single : forall sa j l r, jt_on j = [(l, r)] ->
+  f_qual r = Some (eff_alias j) ->
+  join_key_fields [parse_join_code sa j] (jt_table j) = Some [f_name r].
+Proof.
+  intros sa j l r Hon Hq. simpl. rewrite bytes_eqb_refl. rewrite Hon. simpl.
+  rewrite (strip_alias_table sa _ r _ Hq (bytes_eqb_refl _)). reflexivity.
+Qed.
+
+Lemma on_pair_spec_oriented : forall sa ta p, swapped sa ta p = false -> on_pair_spec sa ta p = on_pair_code sa ta p.
+Proof. intros sa ta p H. unfold on_pair_spec. rewrite H. reflexivity. Qed.
+
+Lemma parse_spec_oriented : forall q, well_oriented q = true -> parse_spec q = parse_code q.
+Proof.
+  intros q H. unfold parse_spec, parse_code. f_equal. unfold well_oriented in H. rewrite forallb_forall in H.
+  apply map_ext_in. intros j Hj. specialize (H j Hj). rewrite forallb_forall in H.
+  unfold parse_join_spec, parse_join_code. f_equal. apply map_ext_in. intros p Hp.
+  apply on_pair_spec_oriented. specialize (H p Hp). destruct (swapped _ _ p); [discriminate|reflexivity].
+Qed.
+
+(* the refinement from the SQL text on: when every ON equality is written stream = table (or carries no
+   deciding qualifier), the code-level model of the whole case -- parse, derive the keys, register, run
+   -- returns exactly the outputs of the abstract table under the meaning of the clause *)
+Theorem refinement_sql : forall q regs ops, well_oriented q = true ->
+  model_run_sql q regs ops = spec_run_sql q regs ops.
+Proof.
+  intros q regs ops H. unfold model_run_sql, spec_run_sql. rewrite (parse_spec_oriented q H). apply refinement.
+Qed.
+
+(* "=" is symmetric in the meaning: a clause written table = stream means what stream = table means *)
+Lemma on_pair_spec_sym : forall sa ta a b, swapped sa ta (a, b) = true ->
+  on_pair_spec sa ta (a, b) = on_pair_spec sa ta (b, a).
+Proof.
+  intros sa ta a b H. unfold on_pair_spec. rewrite H.
+  assert (Hs : swapped sa ta (b, a) = false).
+  { unfold swapped, table_side, stream_side in *. simpl in *.
+    destruct (f_qual a) as [qa|]; destruct (f_qual b) as [qb|]; simpl in *; try discriminate;
+      repeat match goal with
+             | H : context [bytes_eqb ?x ta] |- _ => destruct (bytes_eqb x ta)
+             | H : context [qual_is ?x sa] |- _ => destruct (qual_is x sa)
+             end; simpl in *; try discriminate; try reflexivity. }
+  rewrite Hs. reflexivity.
+Qed.
+
+(* the code as written is positional: "JOIN t m ON m.a = k" takes a for the stream field and k for the
+   table key. Witness: table t = [{a:1, v:7}], key derived from ON; the stream row {k:1} must be
+   enriched with v = 7 and {k:2} dropped; the code indexes the table on the column "k" (every row
+   gets the key NULL) and reads the stream key from the column "a" (NULL), so BOTH rows are enriched *)
+Definition sw_t : bytes := [116]%N.
+Definition sw_m : bytes := [109]%N.
+Definition sw_a : bytes := [97]%N.
+Definition sw_k : bytes := [107]%N.
+Definition sw_v : bytes := [118]%N.
+Definition sw_q : qtext :=
+  {| q_src_alias := None;
+     q_joins := [{| jt_table := sw_t; jt_left := false; jt_alias := Some sw_m;
+                    jt_on := [({| f_qual := Some sw_m; f_name := sw_a |}, {| f_qual := None; f_name := sw_k |})] |}] |}.
+Definition sw_regs : list reg_call := [(sw_t, None, [[(sw_a, KInt 1); (sw_v, KInt 7)]])].
+Definition sw_ops : list op := [OEmitSync [(sw_k, KInt 1)]; OEmitSync [(sw_k, KInt 2)]].
+Lemma swapped_on_refuted :
+  well_oriented sw_q = false /\
+  spec_run_sql sw_q sw_regs sw_ops =
+    [OutE (ERow [(sw_k, WV (KInt 1)); (sw_m, WR [(sw_a, KInt 1); (sw_v, KInt 7)])]); OutE EDrop] /\
+  model_run_sql sw_q sw_regs sw_ops =
+    [OutE (ERow [(sw_k, WV (KInt 1)); (sw_m, WR [(sw_a, KInt 1); (sw_v, KInt 7)])]);
+     OutE (ERow [(sw_k, WV (KInt 2)); (sw_m, WR [(sw_a, KInt 1); (sw_v, KInt 7)])])].
+Proof. repeat split; vm_compute; reflexivity. Qed.
+
+(* ------------------------------------------------------------------ concurrent writers *)
+(* Each Upsert / Delete / Lookup is one atomic step, so a concurrent execution of two goroutines is an
+   interleaving (merge) of their operation sequences. What a key sees depends only on the writes to an
+   equal key: a goroutine whose keys no other goroutine writes reads its own writes, whatever the others
+   do in between (a lost update contradicts this). *)
+Definition touches (keys : list bytes) (name : bytes) (k : list kv) (o : op) : bool :=
+  match o with
+  | OUpsert n r => bytes_eqb name n && tuple_eqb (row_key keys r) k
+  | ODelete n dk => bytes_eqb name n && tuple_eqb (dkey_tuple dk) k
+  | _ => false
+  end.
+
+Lemma hist_lookup_filter : forall keys name k ops cur,
+  hist_lookup keys name k cur ops = hist_lookup keys name k cur (filter (touches keys name k) ops).
+Proof.
+  intros keys name k ops. induction ops as [|o ops IH]; intros cur; simpl; [reflexivity|].
+  destruct o as [r|r|n r|n dk]; simpl; try apply IH.
+  - destruct (bytes_eqb name n && tuple_eqb (row_key keys r) k) eqn:E; simpl; [rewrite E|]; apply IH.
+  - destruct (bytes_eqb name n && tuple_eqb (dkey_tuple dk) k) eqn:E; simpl; [rewrite E|]; apply IH.
+Qed.
+
+Inductive merge : list op -> list op -> list op -> Prop :=
+| merge_nil : merge [] [] []
+| merge_l : forall o a b c, merge a b c -> merge (o :: a) b (o :: c)
+| merge_r : forall o a b c, merge a b c -> merge a (o :: b) (o :: c).
+
+Lemma merge_filter_silent : forall (P : op -> bool) a b c, merge a b c -> filter P b = [] -> filter P c = filter P a.
+Proof.
+  intros P a b c M. induction M as [|o a b c M IH|o a b c M IH]; intros Hb; simpl in *.
+  - reflexivity.
+  - rewrite (IH Hb). reflexivity.
+  - destruct (P o); [discriminate|]. apply IH. exact Hb.
+Qed.
+
+Lemma merge_app : forall a b, merge a b (a ++ b).
+Proof.
+  induction a as [|o a IH]; intros b; simpl.
+  - induction b as [|o b IHb]; [constructor|]. apply merge_r. exact IHb.
+  - apply merge_l. apply IH.
+Qed.
+
+Theorem concurrent_writers : forall c (ts : tables bytes) name keys k a b ops,
+  keys_of ts name = Some keys -> merge a b ops -> filter (touches keys name k) b = [] ->
+  lookup_in (M_final c ts ops) name k = lookup_in (M_final c ts a) name k.
+Proof.
+  intros c ts name keys k a b ops Hk M Hb.
+  rewrite (read_your_writes c ops ts name keys k Hk), (read_your_writes c a ts name keys k Hk).
+  rewrite hist_lookup_filter, (hist_lookup_filter keys name k a).
+  rewrite (merge_filter_silent _ a b ops M Hb). reflexivity.
+Qed.
